@@ -31,24 +31,28 @@ type pipeline struct {
 
 func findPipeline(p *core.Program, r *core.Report, rule string) *pipeline {
 	pl := &pipeline{}
+	// roles are found from the effects outward; a helper extracted from a role
+	// function is seen through the flattened view of its unit
 	for _, cs := range callersOf(p, "os.RemoveAll", "os.Remove") {
-		if core.RelPkg(cs.In.Pkg.PkgPath) == "pkg/gengo" {
-			pl.pkgExec = cs.In.Root()
+		if core.RelPkg(cs.In.Pkg.PkgPath) == "pkg/gengo" && pl.pkgExec == nil {
+			pl.pkgExec = unit(p, cs.In)
 		}
 	}
 	for _, cs := range callersOf(p, "os.OpenFile", "os.Create") {
-		if core.RelPkg(cs.In.Pkg.PkgPath) == "pkg/gengo" {
-			pl.write = cs.In.Root()
+		if core.RelPkg(cs.In.Pkg.PkgPath) == "pkg/gengo" && pl.write == nil {
+			pl.write = unit(p, cs.In)
 		}
 	}
 	if pl.pkgExec != nil && pl.pkgExec.Obj() != nil {
 		for _, cs := range allCalls(p) {
-			if core.CalleeFunc(cs.In.Info(), cs.Call) == pl.pkgExec.Obj() {
-				pl.execute = cs.In.Root()
+			if cs.In.Body != nil && core.CalleeFunc(cs.In.Info(), cs.Call) == pl.pkgExec.Obj() && pl.execute == nil {
+				pl.execute = unit(p, cs.In)
 			}
 		}
 	}
-	pl.save = p.FuncByName("pkg/sumfile", "(*File).Save")
+	if f := p.FuncByName("pkg/sumfile", "(*File).Save"); f != nil {
+		pl.save = flatten(p, f)
+	}
 	pl.filename = p.FuncByName("pkg/gengo", "(*genfile).Filename")
 	for name, f := range map[string]*core.Func{"the per-package function (caller of os.RemoveAll in pkg/gengo)": pl.pkgExec, "the file writer (caller of os.OpenFile in pkg/gengo)": pl.write, "Execute (caller of the per-package function)": pl.execute, "pkg/sumfile.(*File).Save": pl.save, "pkg/gengo.(*genfile).Filename": pl.filename} {
 		if f == nil {
@@ -61,11 +65,11 @@ func findPipeline(p *core.Program, r *core.Report, rule string) *pipeline {
 
 func runC07(p *core.Program, r *core.Report) {
 	r.Floor("A1", 6)
-	a1Report(p, r, "A1")
 	pl := findPipeline(p, r, "R1")
 	if pl == nil {
 		return
 	}
+	a1Report(p, r, "A1", pl)
 	c07R1(p, r, pl)
 	c07R2(p, r, pl)
 	c07R3(p, r, pl)
@@ -123,7 +127,7 @@ func c07R2(p *core.Program, r *core.Report, pl *pipeline) {
 		for k := len(path) - 1; k >= 0; k-- {
 			if rs, ok := path[k].(*ast.RangeStmt); ok {
 				found = true
-				s := core.VarOf(info, rs.X)
+				s := core.CanonVarOf(info, f.Body, rs.X)
 				if set == nil {
 					set = s
 				}
@@ -148,11 +152,11 @@ func c07R2(p *core.Program, r *core.Report, pl *pipeline) {
 			return true
 		}
 		for i, l := range as.Lhs {
-			if core.VarOf(info, l) == set && as.Tok != token.DEFINE {
+			if lv := core.VarOf(info, l); lv != nil && lv == set && as.Tok != token.DEFINE {
 				r.Bad(rule, f, "removal set is re-assigned", as.Pos(), "the candidate set is replaced by something unchecked")
 			}
 			ix, ok := ast.Unparen(l).(*ast.IndexExpr)
-			if !ok || core.VarOf(info, ix.X) != set {
+			if !ok || core.CanonVarOf(info, f.Body, ix.X) != set {
 				continue
 			}
 			stores++
@@ -256,7 +260,7 @@ func c07R3(p *core.Program, r *core.Report, pl *pipeline) {
 	}
 	// who may call Save
 	for _, cs := range callersOf(p, core.GM("pkg/sumfile", "*File", "Save")) {
-		r.Check(cs.In.Root() == e, rule, cs.In, "Save is called only from Execute", cs.Call.Pos(), "single caller", "gengo.sum is written from another place than Execute")
+		r.Check(e.Has(cs.In), rule, cs.In, "Save is called only from Execute", cs.Call.Pos(), "single caller", "gengo.sum is written from another place than Execute")
 	}
 }
 
@@ -272,7 +276,7 @@ func c07R4(p *core.Program, r *core.Report, pl *pipeline) {
 		pth := core.PathTo(f.Body, rm)
 		for k := len(pth) - 1; k >= 0; k-- {
 			if rs, ok := pth[k].(*ast.RangeStmt); ok {
-				if v := core.VarOf(info, rs.X); v != nil && isMapType(v.Type()) && rmSet == nil {
+				if v := core.CanonVarOf(info, f.Body, rs.X); v != nil && isMapType(v.Type()) && rmSet == nil {
 					rmSet = v
 				}
 				break
@@ -291,7 +295,7 @@ func c07R4(p *core.Program, r *core.Report, pl *pipeline) {
 	}
 	isStrike := func(n ast.Node, w *ast.CallExpr) bool {
 		for _, c := range core.Calls(n, true) {
-			if core.CalleeName(info, c) != "builtin.delete" || len(c.Args) != 2 || core.VarOf(info, c.Args[0]) != rmSet {
+			if core.CalleeName(info, c) != "builtin.delete" || len(c.Args) != 2 || core.CanonVarOf(info, f.Body, c.Args[0]) != rmSet {
 				continue
 			}
 			kc, ok := ast.Unparen(c.Args[1]).(*ast.CallExpr)
